@@ -10,7 +10,7 @@ open HTree
 
 namespace Work
 
-variable {g : Forest} {R : List HTree} {fs : List Frame} {c : Nat} {vc : Value} {K : List HTree}
+variable {g : Forest} {R : List HTree} {fs : List CFrame} {c : Nat} {vc : Value} {K : List HTree}
   {n : Nat} {v : Value}
 
 /-- Look at the last child of the focus instead. -/
